@@ -246,7 +246,9 @@ pub fn check_minimal(cfg: &Cfg, diags: &[imp::Diag]) -> (u64, Option<(String, St
             continue;
         }
         if let Some(rd) = node.writes_to() {
-            if rout[i] & (1 << rd.get().to_num()) == 0 && !node.can_skip_save_checks() {
+            // the statement only says when a warning may be given; the stack pointer is the one
+            // register whose dead writes (releasing main's frame before the exit) are not reported
+            if rout[i] & (1 << rd.get().to_num()) == 0 && !node.can_skip_save_checks() && rd.get().to_num() != 2 {
                 let r = rd.range();
                 expected.insert((r.start().raw_index(), r.end().raw_index()));
             }
